@@ -24,6 +24,9 @@ type Profile struct {
 	LowPct    int   `json:"low_pct"`
 	Shapes    []int `json:"shapes"`
 	HTTP      bool  `json:"http,omitempty"`
+	// Bulk: one burst of this many cheap entries, so that a single round (or a
+	// recovered staging bundle) uploads more than 64 tiles in parallel.
+	Bulk int `json:"bulk,omitempty"`
 
 	OpErrW     int `json:"op_err_w"`
 	CrashW     int `json:"crash_w"`
@@ -124,6 +127,11 @@ func MakeProfile(prop string, seed uint64, tier string) *Profile {
 		if r.Chance(1, 4) {
 			p.SlowW = 3
 		}
+	}
+	if (prop == "C04" || prop == "C03") && r.Chance(1, 16) {
+		p.Bulk = 5400 + r.Intn(1200)
+		p.PoolSize = 0
+		p.Tag += "+bulk"
 	}
 	switch prop {
 	case "C03":
